@@ -126,7 +126,7 @@ impl Prop for C16 {
         .boxed()
     }
     fn random_cases(&self, tier: Tier) -> u32 {
-        tier.pick(8_000, 200_000)
+        tier.pick(8_000, 100_000)
     }
     fn check(&self, case: &GenCase) -> Outcome {
         let mut out = Outcome::new();
